@@ -159,10 +159,11 @@ class IO(object):
             bytes_to_send = len(frame_data)
             while total_bytes_written < bytes_to_send:
                 try:
-                    if not self.socket:
+                    sock = self.socket
+                    if not sock:
                         raise socket.error('connection/socket error')
                     bytes_written = (
-                        self.socket.send(frame_data[total_bytes_written:])
+                        sock.send(frame_data[total_bytes_written:])
                     )
                     if bytes_written == 0:
                         raise socket.error('connection/socket error')
@@ -338,12 +339,13 @@ class IO(object):
 
         :rtype: bytes
         """
+        sock = self.socket
         if not self.use_ssl:
-            if not self.socket:
+            if not sock:
                 raise socket.error('connection/socket error')
-            return self.socket.recv(MAX_FRAME_SIZE)
+            return sock.recv(MAX_FRAME_SIZE)
 
         with self._rd_lock:
-            if not self.socket:
+            if not sock:
                 raise socket.error('connection/socket error')
-            return self.socket.read(MAX_FRAME_SIZE)
+            return sock.read(MAX_FRAME_SIZE)
